@@ -1,6 +1,6 @@
 (** C17 - memory is bounded by sqrt(stop) and the sieve size, not by the interval length; it is freed. *)
 From Coq Require Import NArith List Bool.
-From PS Require Import Spec.Primes Model.PrimeGen Model.Mem Proofs.MemP.
+From PS Require Import Spec.Primes Model.PrimeGen Model.Mem Proofs.MemP Model.VecM Proofs.VecP.
 Local Open Scope N_scope.
 
 (** a forward iterator's prime buffer is never sized above 1024 entries, whatever primeCountUpper
@@ -11,3 +11,19 @@ Theorem C17_forward_buffer_bounded : forall pcu start stop,
   cap <= 1024 /\ size <= cap /\ (maxCachedPrime + 2 <= stop -> size + 64 <= cap).
 Proof. exact next_buffer_bounds. Qed.
 Print Assumptions C17_forward_buffer_bounded.
+
+(** primesieve's own Vector (include/primesieve/Vector.hpp), for every history of push_back /
+    reserve / resize / append / clear on a Vector that starts empty: size() <= capacity() and the
+    capacity is at most twice the largest size or reservation the caller ever asked for - the
+    containers add a constant factor to what their users (sieve array, buckets' pointers, sieving
+    primes, prime buffers) request, never more *)
+Theorem C17_vector_capacity_bounded : forall ops,
+  fst (vec_run ops) <= snd (vec_run ops) /\ snd (vec_run ops) <= 2 * vec_high (0, 0) ops.
+Proof. exact vec_capacity_bounded. Qed.
+Print Assumptions C17_vector_capacity_bounded.
+
+(** the hypotheses are met by a non-trivial history: 5 push_backs, reserve(7), resize(20), clear *)
+Example C17_vector_example :
+  vec_run (VPush :: VPush :: VPush :: VPush :: VPush :: VReserve 7 :: VResize 20 :: VClear :: nil) = (0, 20)
+  /\ vec_high (0, 0) (VPush :: VPush :: VPush :: VPush :: VPush :: VReserve 7 :: VResize 20 :: VClear :: nil) = 20.
+Proof. split; vm_compute; reflexivity. Qed.
